@@ -137,10 +137,9 @@ impl Unreal2Protocol {
                 .min(MAXIMUM_PLAYER_PREALLOCATION),
         );
 
-        // Fetch first players packet (with retries)
-        let mut players_data = self.get_request_data(PacketKind::Players);
-        // Players are non required so if we don't get any responses we continue to
-        // return
+        // Fetch first players packet (with retries); whether a failure here is fatal is decided by the
+        // caller's gather setting
+        let mut players_data = Ok(self.get_request_data(PacketKind::Players)?);
         while let Ok(data) = players_data {
             let mut buffer = Buffer::<LittleEndian>::new(&data);
 
